@@ -216,6 +216,8 @@ func buildCorpus(env *Env, cfg *spec.DiskCfg) []corpusItem {
 		j2k("j2k-ll-l1", in8, spec.J2KEnc{Levels: 1, Lossless: true, MCT: g.spp == 3, Layers: 1})
 		j2k("j2k-lossy-l2", in12, spec.J2KEnc{Levels: 2, Lossless: false, MCT: g.spp == 3, Layers: 2, Quality: 60})
 		j2k("htj2k-ll-l1", in8, spec.J2KEnc{Levels: 1, Lossless: true, Layers: 1, HT: true})
+		// precinct-partitioned stream: many precincts per resolution (packet iteration, per-precinct state)
+		j2k("j2k-precincts", in8, spec.J2KEnc{Levels: 2, Lossless: true, Layers: 2, MCT: g.spp == 3, PrecW: 4, PrecH: 4, CBW: 4, CBH: 4})
 		if cfg.Corpus == "full" {
 			j2k("j2k-ll-l0-16", in16, spec.J2KEnc{Levels: 0, Lossless: true, Layers: 1})
 			j2k("j2k-tiles", in8, spec.J2KEnc{Levels: 1, Lossless: true, Layers: 1, TileW: 8, TileH: 8})
